@@ -193,7 +193,7 @@ func init() {
 			}
 		}})
 
-	register(&Rule{ID: "C15.keyset", Props: []string{"C15", "C02", "C18"}, Floor: 8,
+	register(&Rule{ID: "C15.keyset", Props: []string{"C15", "C02", "C18"}, Floor: 12,
 		Doc: "keys written when a pending entry is created are exactly those deleted when it completes, built from the entry's own fields",
 		Run: func(e *Engine, r *RuleRun) {
 			del := r.Need("keeper.Keeper.DeleteRedelegation")
@@ -288,6 +288,54 @@ func init() {
 					} else {
 						r.OK(ck, "every queued entry is deleted", "no path to the next entry bypasses DeleteRedelegation", r.P(dc))
 					}
+				}
+			}
+			// the queue entry must carry everything DeleteRedelegation needs to rebuild both keys: on every path to the
+			// bucket write a fresh entry (delegator, source, destination, coin) of this call is added to the bucket
+			if qf := r.Need("keeper.Keeper.queueRedelegation"); qf != nil {
+				qk, qa := FuncKey(qf), e.FA(qf)
+				lits := Complits(qf, "types.Redelegation")
+				if len(lits) < 2 {
+					r.Bad(qk, "queue entry literal", fmt.Sprintf("expected a Redelegation literal on both branches (new bucket / append), found %d", len(lits)), nil, e.Pos(qf.Pos()))
+				}
+				for i, a := range lits {
+					f := complitFields(qa, a)
+					ok := f["DelegatorAddress"] != nil && f["DelegatorAddress"].String() == "sdk.AccAddress.String($delAddr)" &&
+						f["SrcValidatorAddress"] != nil && f["SrcValidatorAddress"].String() == "sdk.ValAddress.String($srcVal)" &&
+						f["DstValidatorAddress"] != nil && f["DstValidatorAddress"].String() == "sdk.ValAddress.String($dstVal)" &&
+						f["Balance"] != nil && f["Balance"].String() == "$coin"
+					r.Check(ok, qk, fmt.Sprintf("queue entry literal #%d = (delAddr, srcVal, dstVal, coin)", i+1), "all four parameters recorded", "a queued redelegation entry does not record the delegator, source, destination and coin of this call: its record/index keys cannot be rebuilt at maturity", r.P(a))
+				}
+				var setq ssa.CallInstruction
+				for _, c := range CallsTo(qf, "corestore.KVStore.Set", "storetypes.KVStore.Set") {
+					if argT(qa, c, 0).IsCall("types.GetRedelegationQueueKey") {
+						setq = c
+					}
+				}
+				if setq == nil {
+					r.Bad(qk, "queue bucket write", "no store.Set(GetRedelegationQueueKey(...))", nil, e.Pos(qf.Pos()))
+				} else {
+					var puts []ssa.Instruction
+					for _, b := range qf.Blocks {
+						for _, in := range b.Instrs {
+							if st, ok := in.(*ssa.Store); ok {
+								if al, ok := rootAlloc(st.Addr); ok && al.Comment == "queuedDelegations" {
+									v := qa.Term(st.Val)
+									for _, a := range lits {
+										if v.Contains(qa.Term(a)) {
+											puts = append(puts, st)
+										}
+									}
+								}
+							}
+						}
+					}
+					if trail := qa.MustPassThrough(nil, setq, puts); trail != nil || len(puts) == 0 {
+						r.Bad(qk, "entry added before queue bucket write", "the queue bucket can be written on a path that did not add an entry for this redelegation (e.g. merged into another entry): the by-source index written by addRedelegation for this call has no queue entry that will delete it at maturity", trail, r.P(setq))
+					} else {
+						r.OK(qk, "entry added before queue bucket write", "every path to the bucket write appends/creates the entry of this call", r.P(setq))
+					}
+					r.Check(argT(qa, setq, 0).Args[0].String() == "$completionTime", qk, "queue key time", "GetRedelegationQueueKey(completionTime)", "queue key time is "+argT(qa, setq, 0).String(), r.P(setq))
 				}
 			}
 			// unbonding family: keys written in queueUndelegation (bucket, index) == keys deleted in CompleteUnbondings: C01.pair.complete + C02.payloop
